@@ -21,7 +21,8 @@ class H:
 
     def __init__(self, name, fn, params=None, tiers=('quick', 'thorough'), finding=None,
                  bounds='', assumptions=(), max_paths=200000, expected_exc=(),
-                 witness=True, note='', rlimit_claim=None, chunk_s=None, exact=False):
+                 witness=True, note='', rlimit_claim=None, chunk_s=None, exact=False, path_timeout=120):
+        self.path_timeout = path_timeout
         self.name = name
         self.fn = fn
         self.params = dict(params or {})
@@ -108,13 +109,43 @@ def _traced_functions():
     return out
 
 
+class PathTimeout(BaseException):
+    pass
+
+
+def _on_alarm(signum, frame):
+    raise PathTimeout()
+
+
+class watchdog:
+    """Wall-clock guard for one execution of a harness (a mutated loop may never terminate)."""
+
+    def __init__(self, seconds):
+        self.seconds = seconds
+
+    def __enter__(self):
+        import signal
+        self.old = signal.signal(signal.SIGALRM, _on_alarm)
+        signal.setitimer(signal.ITIMER_REAL, self.seconds)
+
+    def __exit__(self, *a):
+        import signal
+        signal.setitimer(signal.ITIMER_REAL, 0)
+        signal.signal(signal.SIGALRM, self.old)
+        return False
+
+
 def run_concrete(h, values, exact=False):
     """Run harness h on concrete values.  Returns dict(status, claims, error, outputs)."""
     ctx = ConcreteCtx(values, exact=exact)
     core.set_ctx(ctx)
     rec = {'status': 'ok', 'error': None}
     try:
-        h.fn(ctx, **h.params)
+        with watchdog(h.path_timeout):
+            h.fn(ctx, **h.params)
+    except PathTimeout:
+        rec['status'] = 'timeout'
+        rec['error'] = 'no result after %ss' % h.path_timeout
     except Cut as e:
         rec['status'] = 'cut'
         rec['error'] = str(e)
@@ -143,7 +174,11 @@ def run_path(ctx, h, prefix, trace_funcs=False):
     if trace_funcs:
         sys.setprofile(_profile)
     try:
-        h.fn(ctx, **h.params)
+        with watchdog(h.path_timeout):
+            h.fn(ctx, **h.params)
+    except PathTimeout:
+        rec['status'] = 'timeout'
+        rec['error'] = 'path not finished after %ss' % h.path_timeout
     except Cut as e:
         rec['status'] = 'cut'
         rec['error'] = str(e)
@@ -307,6 +342,9 @@ def explore_many(modname, hs, seed=0, workers=None, chunk_s=6.0, n_witness=3, wa
                     agg['functions'] = res['functions']
                 if agg['paths'] >= h.max_paths or (wall_limit and time.time() - t0 > wall_limit):
                     agg['stopped'] = True
+                agg['n_cex'] = agg.get('n_cex', 0) + sum(1 for r in res['records'] if r.get('cex'))
+                if agg['n_cex'] >= 12:
+                    agg['stopped'] = True     # fail fast: enough counterexample candidates to replay
                 if agg['stopped']:
                     agg['unexplored_prefixes'] += len(res['leftovers'])
                 else:
